@@ -190,6 +190,49 @@ def rule_DV(ctx, fm):
         ctx.check('C10.DV.linear', f'_dipole_vector weights axis {ax}', ok,
                   f'weights of axis {ax} are not r=(x_c-node)/h, e=1-r of '
                   'the same axis', ctx.where(fm, fn))
+    # the in-cell decision: nodes are rounded, the widths (grid.h) are not,
+    # so for a point ON the last node the fraction is 1 + eps and e = -eps:
+    # an exact `>= 0` on these values drops segments lying in the plane of
+    # the last nodes (the vector sums to 0, normalisation gives NaN).  The
+    # decision has to be taken to the precision of the rounding
+    wnames = {W[a][k] for a in range(3) for k in ('r', 'e')}
+    gif = au.enclosing(stores['fx'][0], ast.If) if stores['fx'] else None
+    ctx.anchor(gif is not None, 'in-cell guard of the stores')
+    tests = [gif.test]
+    for x in ast.walk(gif.test):
+        if isinstance(x, ast.Name):
+            ds = [d for d in ast.walk(fn) if isinstance(d, ast.Assign) and
+                  ast.unparse(d.targets[0]) == x.id]
+            if len(ds) == 1:
+                tests.append(ds[0].value)
+    cmps = [c_ for t_ in tests for c_ in ast.walk(t_) if isinstance(
+        c_, ast.Compare) and {y.id for y in ast.walk(c_)
+                              if isinstance(y, ast.Name)} & wnames]
+    ctx.anchor(len(cmps) >= 1, 'comparison of the weights in the guard')
+
+    def robust(c_):
+        sides = [c_.left] + list(c_.comparators)
+        for s_ in sides:
+            if isinstance(s_, ast.Call) and ast.unparse(s_.func) in (
+                    'np.round', 'np.around', 'round') and len(s_.args) +  \
+                    len(s_.keywords) >= 2:
+                return True
+            if isinstance(s_, ast.UnaryOp) and isinstance(s_.op, ast.USub):
+                return True
+            if isinstance(s_, ast.Constant) and isinstance(
+                    s_.value, (int, float)) and s_.value < 0:
+                return True
+        return False
+    exact = all(has(f'{W[a]["r"]} = (__ - {W[a]["n"]}[{W[a]["i"]}]) / '
+                    f'({W[a]["n"]}[{W[a]["i"]} + 1] - '
+                    f'{W[a]["n"]}[{W[a]["i"]}])', fn) for a in range(3))
+    ctx.check('C10.DV.linear', '_dipole_vector: in-cell decision holds on '
+              'the last node', exact or all(robust(c_) for c_ in cmps),
+              f'`{ast.unparse(cmps[0])}` compares fractions of ROUNDED nodes '
+              'over UNROUNDED widths exactly: for a dipole in the plane of '
+              'the last nodes of a stretched grid the fraction is 1 + eps, '
+              'the piece is dropped and the source field becomes NaN',
+              ctx.where(fm, gif))
     ok = False
     c = find(f'{xc} = (_lo_ + _hi_) / 2.0', fn)
     if c:
@@ -464,6 +507,23 @@ def rule_GE(ctx):
               has('_a_, _e_, _l_ = dipole_to_point(_p_)', init),
               'point format is not converted through point_to_dipole / '
               'point_to_square_loop', ctx.where(em, init))
+    # the test for coinciding electrodes is absolute: a tolerance relative to
+    # the coordinate values (np.allclose default rtol=1e-5) rejects short
+    # dipoles at large coordinates (5 m at x = 5e5), so the electrodes of the
+    # point format cannot be given back in the two-electrode format
+    rel = []
+    for c_ in au.calls(init):
+        if ast.unparse(c_.func) in ('np.allclose', 'np.isclose'):
+            kw = {k.arg: k.value for k in c_.keywords}
+            rt = kw.get('rtol', c_.args[2] if len(c_.args) > 2 else None)
+            if not (isinstance(rt, ast.Constant) and rt.value == 0):
+                rel.append(c_)
+    ctx.check('C10.GE.formats', 'Dipole: distinct electrodes decided '
+              'absolutely', not rel, f'`{ast.unparse(rel[0]) if rel else ""}`'
+              ' uses a relative tolerance on coordinates: two electrodes '
+              'closer than 1e-5 of their coordinate value are taken as '
+              'identical and the dipole is refused', ctx.where(
+                  em, rel[0] if rel else init))
     # roles: dipole_to_point returns (azimuth, elevation, length); the
     # magnetic branch must put them into (x, y, z, azimuth, elevation), length
     u = find('_a_, _e_, _l_ = dipole_to_point(_p_)', init)
